@@ -536,7 +536,9 @@ def _geom_sampler(symbolic_det=False, generalised=True, sliced=False, steep=Fals
         limb = float(rng.uniform(0.6, 0.98) * aH) if steep_now else float(rng.uniform(0.05, 0.95) * aH)
         v = {"det_alt": h, "limb": limb, "max_cher": float(rng.uniform(0.01, 1.2)), "max_az": float(rng.uniform(0.1, 2 * math.pi))}
         if symbolic_det:
-            v["detLat"], v["detLong"] = float(rng.uniform(-1.4, 1.4)), float(rng.uniform(-3, 3))
+            # half of the detectors near a pole: there the ground spot can lie beyond the rotation axis (|lat| + theta_S > 90 deg)
+            lat = float(rng.uniform(-1.4, 1.4)) if rng.uniform() < 0.5 else float(rng.choice([-1, 1]) * rng.uniform(1.2, 1.56))
+            v["detLat"], v["detLong"] = lat, float(rng.uniform(-3, 3))
         aMin = aH - limb
         Lmax = math.sqrt(r * r - R * R)
         Lmin = r * math.cos(aMin) - math.sqrt(R * R - (r * math.sin(aMin)) ** 2)
@@ -546,6 +548,15 @@ def _geom_sampler(symbolic_det=False, generalised=True, sliced=False, steep=Fals
             v["L"] = float(rng.uniform(Lmin, Lmax))
         for k in range(1, 5):
             v[f"u{k}_0"] = float(rng.uniform(0.01, 0.99))
+        if symbolic_det and sliced and rng.uniform() < 0.3:
+            # a line of sight that passes over the pole: detector within a few degrees of it, full azimuth range, spot azimuth
+            # towards the pole, long line of sight (the ground spot then lies beyond the rotation axis: the quadrant of the
+            # longitude matters)
+            sgn = float(rng.choice([-1, 1]))
+            v["detLat"] = sgn * float(rng.uniform(1.45, 1.56))
+            v["max_az"] = 2 * math.pi
+            v["u3_0"] = 0.5 + sgn * float(rng.uniform(0.2, 0.3))
+            v["L"] = float(Lmin + rng.uniform(0.6, 0.99) * (Lmax - Lmin))
         return v
 
     return s
@@ -567,7 +578,7 @@ def job_bracket(tier):
 
 def job_spot(tier):
     return harness.run_job("throw: ground spot (ENU -> ECEF)", spot_run(), timeout_ms=60000 if tier == "quick" else 600000, second=(tier == "thorough"), prune_timeout_ms=4000,
-                           witness=(_geom_sampler(symbolic_det=True, sliced=True), 20))
+                           witness=(_geom_sampler(symbolic_det=True, sliced=True), 60))
 
 
 def job_beta(tier):
@@ -728,11 +739,57 @@ def replay(v):
                     return {"reproduced": True, "key": "positions after a repeated throw on one object are wrong (state kept from an earlier throw)",
                             "detail": f"throw number {rnd+1} on the same RegionGeom object: latitude at s = 0 differs from that throw's ground spots by up to {worst} rad"}
         return {"reproduced": False, "key": None, "detail": "repeated throws on one object give consistent positions"}
+    if job.startswith("throw: ground spot"):
+        r = _replay_spot(m)
+        if r:
+            return {"reproduced": True, "key": "throw: ground spot is not at the line-of-sight distance from the detector", "detail": r}
+        return {"reproduced": False, "key": None, "detail": "real throw: every ground spot at distance L from the detector (model configuration and detectors near the poles)"}
     if "kept exactly" in ob or "emergence angle ==" in ob or "cos(theta_TrN)" in ob:
         r = _replay_mask()
         if r:
             return {"reproduced": True, "key": "throw: validity mask differs from (upward-going and beta < 42 deg)", "detail": r}
     return {"reproduced": False, "key": None, "detail": "no replay for this obligation"}
+
+
+def _replay_spot(m):
+    """Real throw: explicit ECEF vectors of the detector and of the reported ground spot; their distance must be the
+    line-of-sight length, the spot must lie on the sphere.  The solver's / concolic point first, then detectors at and
+    near the poles and at mid latitudes (the claims are stated away from the poles themselves)."""
+    import warnings
+
+    import numpy as np
+
+    from nuspacesim.config import NssConfig
+    from nuspacesim.simulation.geometry.region_geometry import RegionGeom
+
+    rng = np.random.default_rng(3)
+    cases = []
+    if "detLat" in m:
+        cases.append((float(m.get("det_alt", 525.0)), float(m["detLat"]), float(m.get("detLong", 0.0)), float(m.get("max_az", 2 * np.pi))))
+    cases += [(525.0, np.radians(80.0), 0.3, 2 * np.pi), (525.0, np.radians(-85.0), -2.0, 2 * np.pi), (33.0, np.radians(-89.0), 1.0, 2 * np.pi),
+              (525.0, np.radians(45.0), 2.5, 2 * np.pi), (2000.0, np.radians(70.0), -0.4, np.pi), (525.0, 0.0, 0.0, 2 * np.pi)]
+    for alt, lat, lon, az in cases:
+        cfg = NssConfig()
+        cfg.detector.initial_position.altitude = alt
+        cfg.detector.initial_position.latitude, cfg.detector.initial_position.longitude = lat, lon
+        cfg.simulation.max_azimuth_angle = az
+        with warnings.catch_warnings(), np.errstate(all="ignore"):
+            warnings.simplefilter("ignore")
+            g = RegionGeom(cfg)
+            g.throw(rng.uniform(1e-3, 1 - 1e-3, (4, 20000)))
+        R, r = g.earth_radius, g.core_alt
+        D = r * np.array([np.cos(lat) * np.cos(lon), np.cos(lat) * np.sin(lon), np.sin(lat)])
+        la, lo = np.radians(g.latS), np.radians(g.longS)
+        P = R * np.array([np.cos(la) * np.cos(lo), np.cos(la) * np.sin(lo), np.sin(la)])
+        d = np.sqrt(((D[:, None] - P) ** 2).sum(axis=0))
+        ok = np.isfinite(d) & np.isfinite(g.losPathLen)
+        err = np.abs(d - g.losPathLen)
+        bad = ok & (err > 1e-6 * r)
+        if bad.any():
+            k = int(np.argmax(np.where(bad, err, 0)))
+            return (f"detector at {alt} km, latitude {np.degrees(lat):.2f} deg, longitude {np.degrees(lon):.2f} deg: {int(bad.sum())} of 20000 ground spots are not at the "
+                    f"line-of-sight distance; e.g. event {k}: spot (lat {g.latS[k]:.4f}, long {g.longS[k]:.4f}) deg is {d[k]:.3f} km from the detector, losPathLen = {g.losPathLen[k]:.3f} km")
+    return None
 
 
 def _replay_mask():
